@@ -216,6 +216,33 @@ pub fn check_lattice(world: &World, t: &Tok, lat: &LatticeObs, m: &Matrix, path_
     }
     rep.count("dictionary_candidates_expected_and_found", expected);
 
+    // out-of-vocabulary candidates carry the parameters of one of the configured OOV definitions
+    let mut allowed: Vec<(i32, i32, i32)> = vec![];
+    for line in world.unk_def.lines() {
+        let c: Vec<&str> = line.split(',').collect();
+        if c.len() >= 4 {
+            if let (Ok(l), Ok(r), Ok(k)) = (c[1].parse::<i32>(), c[2].parse::<i32>(), c[3].parse::<i32>()) {
+                allowed.push((l, r, k));
+            }
+        }
+    }
+    let sp = world.plugins.simple;
+    allowed.push((sp.0 as i32, sp.1 as i32, sp.2 as i32));
+    allowed.push((sp.0 as i32, sp.1 as i32, (sp.2 / 2) as i32));
+    let mut oov_nodes = 0u64;
+    for b in 0..lat.nodes.len() {
+        for node in &lat.nodes[b] {
+            if node.word_id >> 28 == 15 {
+                oov_nodes += 1;
+                let triple = (node.left_id as i32, node.right_id as i32, node.cost as i32);
+                if !allowed.contains(&triple) {
+                    return Err(("oov_params".into(), format!("OOV candidate [{}..{}] carries (left, right, cost) = {:?}, which no configured OOV definition declares", node.begin, node.end, triple)));
+                }
+            }
+        }
+    }
+    rep.count("oov_candidates_checked_against_definitions", oov_nodes);
+
     // the mode-C result is the chain, with the recomputed cumulative costs
     if !path_rewrite {
         let obs = observe(&t.list);
@@ -297,6 +324,10 @@ pub fn run(ctx: &Ctx, rep: &mut Report) {
             if t.tok.verif_input().current().is_empty() {
                 rep.count("empty_normalized", 1);
                 let _ = t.list.collect_results(&mut t.tok);
+                // nothing to segment: no candidate words, so the (empty) minimum-cost path has no tokens
+                if t.list.len() != 0 {
+                    rep.violation("result_vs_chain", "empty input", &format!("the normalised text is empty but {} morphemes are reported", t.list.len()), "", json!({"world_index": wi, "text_index": ti, "text": text, "world": world.describe(true)}));
+                }
                 continue;
             }
             let lat = observe_lattice(&t);
